@@ -319,9 +319,8 @@ func diffFormatter() *Result {
 		parseAdd(b, 7, "combined")
 	}
 	diffLines(r, lines, real)
-	for _, m := range r.Mismatches {
-		r.fail(Failure{Site: "formatter:model-vs-code", Kind: "tree", Input: clip(m.Op, 3000), Detail: "formatted tree / printed bytes differ: model " + clip(m.Model, 600) + " real " + clip(m.Real, 600)})
-	}
+	// a mismatch breaks the tie (reported by the runner as CORRESPONDENCE-BROKEN); whether the property fails on
+	// some input is for oracle-C17 to find on the real code
 	n := 0
 	for k := range distinct {
 		if !strings.HasPrefix(k, "L") {
